@@ -1,6 +1,7 @@
 (* Properties/C16.v — ID fields accept strings and integers, canonically, wherever ID appears.
    `IntOrString` is the declaration TRANSLATED from graphql_client/src/serde_with.rs. *)
 From GC Require Import Base Rust Json Enums Serde TypeExpr RunSerde RunC16 SerdeProofsC16.
+From GC Require Import Schema Query Codegen StrategyAll InvariantAll IdAll.
 
 (* the two helpers on every JSON value *)
 Theorem C16_string_verbatim : forall o s, helper_model o (JStr s) = HOk (Some s).
@@ -54,3 +55,21 @@ Print Assumptions C16_nullable_null_is_none.
 Print Assumptions C16_nonnull_absent_rejected.
 Print Assumptions C16_nonnull_null_rejected.
 Print Assumptions C16_list_example.
+
+(* ---------- for ALL programs (IdAll.v): in the expansion of any selection — plain fields, aliases, nested
+   objects, fragments, union / interface variants, any option set — a rendered field carries an ID helper
+   exactly when the leaf of its Rust type is ID (a type the generator itself rejects, `<double required>`,
+   aside), and the helper it carries returns exactly the field's type, for every list / non-null nesting. *)
+Theorem C16_helper_exactly_on_id_fields_anywhere : forall s frs o fuel c sels sid t p c',
+  fields_all id_rule c -> calc s frs o fuel c sels sid t p = Some c' -> fields_all id_rule c'.
+Proof. exact id_helper_exactly_on_id_fields. Qed.
+Theorem C16_helper_fits_anywhere : forall s frs o fuel c sels sid t p c',
+  fields_all id_fit c -> calc s frs o fuel c sels sid t p = Some c' -> fields_all id_fit c'.
+Proof. exact id_helper_fits_everywhere. Qed.
+Theorem C16_from_any_root : forall s frs o root sels tname prefix c',
+  calc s frs o (calc_fuel sels) (fst (push_type ctx0 root)) sels (snd (push_type ctx0 root)) tname prefix = Some c' ->
+  fields_all id_rule c' /\ fields_all id_fit c'.
+Proof. exact id_fields_of_any_root. Qed.
+Print Assumptions C16_helper_exactly_on_id_fields_anywhere.
+Print Assumptions C16_helper_fits_anywhere.
+Print Assumptions C16_from_any_root.
